@@ -12,6 +12,11 @@ import (
 // derives every key independently (Initial secrets from the connection ID, traffic secrets from the TLS key log,
 // key updates per RFC 9001 6 / RFC 9369 3.3.2) must open every genuine packet to well-formed frames allowed at
 // that encryption level, and no packet number is used for two different packets in a number space.
+// C05(d), same runs: packets sealed by one side are opened by the other. 0-RTT packets (the observer derives the early
+// traffic secret from the resumption PSK) of a connection whose early data the server accepted, delivered intact
+// while the server holds the 0-RTT keys, and Handshake packets of the server delivered intact to a client that holds
+// the Handshake keys, are acknowledged by their receiver (sim.openedByPeerCheck, signatures
+// C05/wire/intact-0rtt-not-opened and C05/wire/intact-handshake-not-opened).
 func TestWirePackets(t *testing.T) {
 	vf.ReplayRepeat = 40
 	xfer.GenUnit = "wire-packets"
